@@ -1269,7 +1269,10 @@ func (it *symStringIter) next() tuple {
 func (ex *exec) rangeIter(x value, t types.Type) iter {
 	switch x := x.(type) {
 	case *omap:
-		it := &omapIter{m: x}
+		it := &omapIter{m: x, ex: ex}
+		if x != nil {
+			it.n0 = len(x.entries)
+		}
 		if ex.mapOrderNondet > 0 && x.len() > 1 {
 			it.order = ex.permute(x)
 		}
